@@ -283,6 +283,11 @@ class Index:
             return None
         if not rest:
             return ("module", modname)
+        full_key = f"{modname}:{'.'.join(rest)}"
+        if full_key in self.functions:
+            return self.functions[full_key]
+        if full_key in self.classes:
+            return self.classes[full_key]
         head = rest[0]
         key = f"{modname}:{head}"
         obj = self.functions.get(key) or self.classes.get(key)
